@@ -1256,6 +1256,9 @@ func runC12(r *Rng, tier string, n int) {
 	runLoopback(r, 8, 25*k)
 	runRetain(r, tier)
 	runPoison(r, tier)
+	runDecorated(r, tier)
+	runMultiHomed(r, tier)
 	runDeadlines(r, tier)
+	stat["retain_gen_retry"] = int(genRetries.Load())
 	Stat(stat)
 }
